@@ -20,3 +20,5 @@ open RV.C18
 #print axioms graph_level_history_refines_spec
 #print axioms graph_level_ops_meaning
 #print axioms conjunctive_context_broke_rollback
+#print axioms handed_out_graphs_log
+#print axioms bypass_breaks_rollback
